@@ -66,12 +66,17 @@ type Case struct {
 	PadV     int    `json:"padV"`    // mut == "pad": value of the last plaintext byte
 	PadTail  string `json:"padTail"` // mut == "pad": full | lastonly | broken
 	Seq      string `json:"seq"`     // history case: kind of the other key that used the same key id before
+	Conc     int    `json:"conc"`    // live case: goroutines sharing one instance (0: not a live case)
+	Keep     int    `json:"keep"`    // live case: results of the previous Keep calls are retained and re-checked
 
 	kid string // key id put on every jwk.Key of this execution ("" = none)
 }
 
 type call struct {
 	Phase   string // history cases: "alone" | "after"
+	W, I    int    // live cases: goroutine and iteration
+	Same    string // live cases: result identical to the one the call gave alone
+	Kept    string // live cases: retained earlier results unchanged
 	Idx     int
 	Xor     int
 	Outcome string
@@ -84,6 +89,8 @@ type call struct {
 type run struct {
 	compLen int
 	calls   []call
+	wsums   []wsum // live cases: one per goroutine
+	nCalls  int    // live cases: real calls made (most are not recorded one by one)
 }
 
 const (
@@ -954,6 +961,9 @@ func resetOf(cs Case, compLen int, full bool) tv.M {
 	if cs.Seq != "" {
 		m["seq"] = cs.Seq
 	}
+	if cs.Conc > 0 {
+		m["conc"], m["keep"] = cs.Conc, cs.Keep
+	}
 	return m
 }
 
@@ -961,6 +971,9 @@ func resetOf(cs Case, compLen int, full bool) tv.M {
 func exec(cs Case, seed int64, pos positions) run {
 	if cs.Seq != "" {
 		return execSeq(cs, seed, pos)
+	}
+	if cs.Conc > 0 {
+		return execLive(cs, seed)
 	}
 	return execCase(cs, seed, pos)
 }
@@ -972,7 +985,13 @@ func record(b *tv.Batch, cs Case, r run, full bool) int {
 		if c.Phase != "" {
 			m["phase"] = c.Phase
 		}
+		if cs.Conc > 0 {
+			m["w"], m["i"], m["same"], m["kept"] = c.W, c.I, c.Same, c.Kept
+		}
 		b.Ev("call", m)
+	}
+	for _, ws := range r.wsums {
+		b.Ev("wsum", tv.M{"w": ws.W, "n": ws.N, "deviating": ws.Deviating})
 	}
 	b.Ev("end", nil)
 	return tr
@@ -996,7 +1015,14 @@ func findingKey(cs Case, why string) string {
 	case "supported-list-mismatch":
 		return "supported-list-mismatch:" + cs.Fn
 	case "history-dependent":
+		if cs.Conc > 0 {
+			return "history-dependent:" + cs.Fn + ":" + cs.Fam + ":sequential-calls"
+		}
 		return "history-dependent:" + cs.Fn + ":" + cs.Alg + ":same-kid"
+	case "concurrency-dependent":
+		return "concurrency-dependent:" + cs.Fn + ":" + cs.Fam + ":shared-instance"
+	case "result-overwritten":
+		return "result-overwritten:" + cs.Fn + ":" + cs.Fam
 	case "malformed-padding-accepted":
 		vc := "1..16"
 		switch {
@@ -1047,7 +1073,7 @@ func findingKey(cs Case, why string) string {
 }
 
 func nontrivial(cs Case) bool {
-	if cs.Mut != "none" || cs.Seq != "" || cs.Fam == "none" || cs.KeyKind != cs.GKeyKind || cs.KeyBits != cs.GKeyBits || cs.NonceLen != cs.GNonce {
+	if cs.Mut != "none" || cs.Seq != "" || cs.Conc > 0 || cs.Fam == "none" || cs.KeyKind != cs.GKeyKind || cs.KeyBits != cs.GKeyBits || cs.NonceLen != cs.GNonce {
 		return true
 	}
 	if cs.Dir == "dec" && cs.TagLen != cs.GTag {
@@ -1111,7 +1137,7 @@ func TestCheck(t *testing.T) {
 			Timeout: ev.Pick(4*time.Minute, 20*time.Minute), Args: []string{"-noGenerateSpecTE"}, Keep: []string{"cases.ndjson"}})
 	}()
 	// non-vacuity: the model of the code as found must be rejected by the monitor, one defect at a time
-	defects := []string{"nopad", "ecdsa", "kwlen", "openlen", "padbound", "kidcache"}
+	defects := []string{"nopad", "ecdsa", "kwlen", "openlen", "padbound", "kidcache", "sharedmac", "pool"}
 	if !thorough {
 		defects = nil // six more TLC runs: thorough tier only (the quick tier stays within its budget on a loaded machine)
 	}
@@ -1184,9 +1210,13 @@ func TestCheck(t *testing.T) {
 			outcomes[c.Outcome]++
 		}
 		record(b, cs, runs[i], pos.full)
-		nCalls += int64(len(runs[i].calls))
+		if runs[i].nCalls > 0 {
+			nCalls += int64(runs[i].nCalls)
+		} else {
+			nCalls += int64(len(runs[i].calls))
+		}
 		if nontrivial(cs) {
-			e.Nontrivial(fmt.Sprintf("%s|%s|%s|%d|%d|%d|%d|%d|%s|%d|%s|%s", cs.Fn, cs.Alg, cs.KeyKind, cs.KeyBits, cs.NonceLen, cs.TagLen, cs.InLen, cs.AadLen, cs.Mut, cs.PadV, cs.PadTail, cs.Seq))
+			e.Nontrivial(fmt.Sprintf("%s|%s|%s|%d|%d|%d|%d|%d|%s|%d|%s|%s", cs.Fn, cs.Alg, cs.KeyKind, cs.KeyBits, cs.NonceLen, cs.TagLen, cs.InLen, cs.AadLen, cs.Mut, cs.PadV, cs.PadTail, fmt.Sprint(cs.Seq, cs.Conc, cs.Keep)))
 		}
 	}
 	// the lists the package publishes
@@ -1200,7 +1230,7 @@ func TestCheck(t *testing.T) {
 	fmt.Printf("executed %d cases, %d real calls in %s; %d trace lines\n", len(cases), nCalls, time.Since(t0).Round(time.Millisecond), b.Lines())
 	e.Set("evaluations", nCalls)
 	e.Set("outcome_classes_observed", outcomes)
-	e.Set("rule", "case = (entry point, algorithm name, key kind, key bits, nonce length, tag length, message length, AAD length, mutation), enumerated by TLC from spec/CryptoDispatch (CryptoDispatch!Groups/GroupCases: valid point x message lengths x AAD lengths; key-size, key-kind, nonce-length, tag-length sweeps; pairs of faults; unsupported/foreign names; every deformation of a valid input, byte flips at EVERY byte position of the component; PKCS#7 tails: message of 1..4 blocks x last byte value v x tail full/lastonly/broken through UnpadPKCS7 and every padded-CBC decryption; history: signature / asymmetric-encryption calls with keys carrying a key id, alone and after calls with another rsa/ec/okp key under the same key id); each case executed once on the real package (flip cases: once per byte position and xor value), judged by TLC: outcome in Allowed(case), decrypt(encrypt)=id, agreement with the reference, no output on error. non-trivial = some fault or mutation present, or a message length with len%16 in {0,1,15} or > 64; distinct by the case tuple")
+	e.Set("rule", "case = (entry point, algorithm name, key kind, key bits, nonce length, tag length, message length, AAD length, mutation), enumerated by TLC from spec/CryptoDispatch (CryptoDispatch!Groups/GroupCases: valid point x message lengths x AAD lengths; key-size, key-kind, nonce-length, tag-length sweeps; pairs of faults; unsupported/foreign names; every deformation of a valid input, byte flips at EVERY byte position of the component; PKCS#7 tails: message of 1..4 blocks x last byte value v x tail full/lastonly/broken through UnpadPKCS7 and every padded-CBC decryption; history: signature / asymmetric-encryption calls with keys carrying a key id, alone and after calls with another rsa/ec/okp key under the same key id; live: conc goroutines on ONE shared cipher.AEAD / cipher.Block / jwk.Key making 40-100 calls each with own messages and nonces, retaining the slices returned by the previous keep calls - every result equal to the one the call gives alone and to the reference, retained results unchanged after later successful and failing calls); each case executed once on the real package (flip cases: once per byte position and xor value), judged by TLC: outcome in Allowed(case), decrypt(encrypt)=id, agreement with the reference, no output on error. non-trivial = some fault or mutation present, or a message length with len%16 in {0,1,15} or > 64; distinct by the case tuple")
 	for _, i := range []int{0, len(cases) / 5, 2 * len(cases) / 5, 3 * len(cases) / 5, 4 * len(cases) / 5, len(cases) - 1} {
 		tr := b.TraceStrings(i)
 		if len(tr) > 6 {
